@@ -105,6 +105,8 @@ def _case(draw, tier):
         "custom": custom,
         "nan_values": draw(st.booleans()),
         "na_token": draw(st.sampled_from(["", "", "", "NaN", "nan", "NA", "N/A", "null", "NULL", "#N/A"])),
+        # complete float features holding +inf and -inf (saturated scores): infinite is not missing
+        "inf_cols": draw(st.lists(st.integers(0, nfeat - 1), unique=True, max_size=2)) if draw(st.integers(0, 3)) == 0 else [],
     }
 
 
@@ -149,6 +151,9 @@ def _build(case):
             vals = [int(x) for x in rng.integers(-5, 50, n)]
         else:
             vals = [round(float(x), 6) for x in rng.normal(0, 3, n)]
+        if f["kind"] != "int" and i in case.get("inf_cols", ()):
+            p1 = (i * 7) % n
+            vals[p1], vals[(p1 + 1) % n] = float("inf"), float("-inf")
         vals = [None if r in nan_at.get(i, ()) else v for r, v in enumerate(vals)]
         cols[f["name"]] = vals
     header = list(cols)
@@ -310,6 +315,8 @@ def check(case):
         classes.append("row-chunks")
     if any(f["kind"] == "int" and f["name"] in nan_cols for f in case["feats"]):
         classes.append("nan-in-int-column")
+    if any(case["feats"][i]["kind"] != "int" for i in case.get("inf_cols", ())):
+        classes.append("feature-with-both-infinities")
     if nan_cols and case.get("nan_values") and case["fmt"] == "parquet":
         classes.append("parquet-nan-stored-as-value")
     if nan_cols and case.get("na_token") and case["fmt"] == "tsv":
